@@ -23,8 +23,9 @@ fn c16_sendmsg() {
     let mut m: msghdr = unsafe { std::mem::zeroed() };
     m.msg_iov = iov.cast_mut();
     m.msg_iovlen = NIOV as _;
+    let flags: c_int = kani::any(); // every flag word: the wrapper must not change what it hands down because of a flag
     let nio: NioSendmsgSyscall<Kernel> = NioSendmsgSyscall::default();
-    let r = nio.sendmsg(None, 3, &raw const m, 0);
+    let r = nio.sendmsg(None, 3, &raw const m, flags);
     check_common(r, nb, vtotal());
     unsafe {
         kani::cover!(MOVED > LENS[0] && LENS[0] > 0 && CALLS >= 2, "C16.cover_transfer_crossing_an_iovec_boundary");
